@@ -133,6 +133,20 @@ type violation struct {
 }
 
 func main() {
+	if len(os.Args) == 2 && os.Args[1] == "warm" {
+		os.MkdirAll(filepath.Join(verif, "build"), 0o755)
+		work, err := os.MkdirTemp(filepath.Join(verif, "build"), "warm-")
+		if err != nil {
+			infra("%v", err)
+		}
+		defer os.RemoveAll(work)
+		for _, h := range []string{"ha", "hb"} {
+			if _, err := os.Stat(filepath.Join(verif, "vx", h)); err == nil {
+				build(filepath.Join(work), h)
+			}
+		}
+		return
+	}
 	if len(os.Args) < 3 {
 		fmt.Fprintln(os.Stderr, "usage: vx check <ID> [--tier quick|thorough] | vx replay <path>")
 		os.Exit(2)
